@@ -313,6 +313,8 @@ def dedent_matrix(k):
                 for ctx in ("msg", "attr", "variant"):
                     base = {"msg": 0, "attr": 2, "variant": 3}[ctx]
                     src, raw = matrix_pattern(first, lines, base)
+                    if not finish_pattern(raw):
+                        continue      # only trimmable text: no Pattern, the entry is not well-formed
                     # (blank lines after the last content line are not part of the pattern: `raw` has none)
                     pat = pat_sexp(finish_pattern(raw))
                     if ctx == "msg":
@@ -330,6 +332,93 @@ def dedent_matrix(k):
                         for final in (True, False):
                             lay.append(eol.join(body) + (eol if final else ""))
                     yield "spec %s ~ g2:%s" % ("|".join(hx(x) for x in lay), hexs(exp))
+
+
+# ---------------------------------------------------------------------------------------------
+# known finding F30 (deliberate deviation, see known_findings.json): a trailing continuation line made only of
+# trimmable non-blank text (lone CR, spaces) whose indent is smaller than that of the kept lines
+
+def logical_lines(src):
+    """lines of the source with their line ends (LF / CRLF) removed; a lone CR stays in the line"""
+    parts = src.split("\n")
+    out = []
+    for k, ln in enumerate(parts):
+        if k + 1 < len(parts) and ln.endswith("\r"):
+            ln = ln[:-1]
+        out.append(ln)
+    return out
+
+
+def dedent_more(pat, d):
+    """the pattern node `(pat ...)` with `d` more spaces removed at every line start (first element: also its first line)"""
+    out = ["pat"]
+    for idx, el in enumerate(pat[1:]):
+        if isinstance(el, list) and el and el[0] == "t":
+            segs = sexp.unhex(el[1]).decode("utf-8", "replace").split("\n")
+            for j, seg in enumerate(segs):
+                if (j > 0 or idx == 0) and seg.startswith(" " * d):
+                    segs[j] = seg[d:]
+            text = "\n".join(segs)
+            if text:
+                out.append(["t", hexs(text)])
+        else:
+            out.append(el)
+    return out
+
+
+def same_up_to_dedent(g, m, dmax, hits):
+    """g == m except that whole patterns of m are dedented by 1..dmax more spaces (each such pattern is counted in hits)"""
+    if g == m:
+        return True
+    if not (isinstance(g, list) and isinstance(m, list)):
+        return False
+    if g and m and g[0] == "pat" and m[0] == "pat":
+        if any(dedent_more(g, d) == m for d in range(1, dmax + 1)):
+            hits.append(1)
+            return True
+    if len(g) != len(m):
+        return False
+    return all(same_up_to_dedent(a, b, dmax, hits) for a, b in zip(g, m))
+
+
+def f30_shape(src_bytes, g, m):
+    """True iff the source has a line `spaces CR (CR|space)*` that (1) is the last line of its pattern (end of input, or
+    followed by a line that is not a continuation line), (2) is indented less than every other continuation line of that
+    pattern, and (3) the grammar's tree and the parser's tree differ only in that some pattern is dedented more by the
+    parser (by at most the difference of those indents)"""
+    try:
+        src = src_bytes.decode("utf-8")
+    except UnicodeDecodeError:
+        return False
+    lines = [l for l in logical_lines(src) if l.strip(" ") != ""]
+    headers = ("[", "*", ".")
+    best = 0
+    for j, ln in enumerate(lines):
+        mt = re.fullmatch(r"( +)\r[\r ]*", ln)
+        if not mt:
+            continue
+        # (1) it is the last line of its pattern: what follows is not a continuation line
+        if j + 1 < len(lines):
+            nxt = lines[j + 1]
+            if nxt.startswith(" ") and not nxt.lstrip(" ").startswith(headers + ("}",)):
+                continue
+        # (2) the other continuation lines of that pattern are indented more
+        k = len(mt.group(1))
+        kept = []
+        for l in reversed(lines[:j]):
+            if not l.startswith(" ") or l.lstrip(" ").startswith(headers):
+                break
+            kept.append(len(l) - len(l.lstrip(" ")))
+        if kept and k < min(kept):
+            best = max(best, min(kept) - k)
+    if best == 0:
+        return False
+    try:
+        tg, tm = sexp.parse_all(g)[0], sexp.parse_all(m)[0]
+    except Exception:
+        return False
+    hits = []
+    return same_up_to_dedent(tg, tm, best, hits) and len(hits) >= 1
 
 
 class C02(Base):
@@ -357,6 +446,7 @@ class C02(Base):
 
     def __init__(self):
         self._info = {}     # case -> list of (W, leniency kind or None) recorded by predicate2 for classify
+        self._dev = {}      # case -> (source bytes, grammar tree, parser tree) of a W=1 deviation (for failure_class / known)
 
     # --- cases -------------------------------------------------------------------------------
     def generate(self, rng, tier):
@@ -427,6 +517,7 @@ class C02(Base):
                 if "(junk " in m:
                     return "layout %d of a well-formed AST: parser produced Junk" % k
                 if m != exp:
+                    self._dev[case] = (unhx(srcs[k]), exp, m)     # exp is what the grammar assigns (checked in predicate2)
                     return "layout %d: parser tree differs from the tree the source was generated from" % k
             if kind == "ref" and m != exp:
                 return "parser tree differs from the reference tree of the fixture"
@@ -457,6 +548,7 @@ class C02(Base):
                 if e != "0" or "(junk " in m:
                     return "source %d is well-formed under the Fluent grammar but the parser reports errors/Junk" % k
                 if g != m:
+                    self._dev[case] = (unhx(srcs[k]), g, m)
                     return "source %d is well-formed under the Fluent grammar but the parser's tree differs from the grammar's" % k
                 info.append(("1", None))
             else:
@@ -495,14 +587,42 @@ class C02(Base):
             bump(dist, "has-crlf-layout")
 
     def failure_class(self, case, impl_obs, why):
-        return re.sub(r"\d+", "#", why)[:70]
+        cls = re.sub(r"\d+", "#", why)[:70]
+        dev = self._dev.get(case)
+        if dev is not None and f30_shape(*dev):
+            # kept apart so that a known-shaped case can never stand in for (and hide) another deviation
+            cls = "F30-shaped " + cls
+        return cls
 
-    # --- shrinking: to a single source, then lines, then characters ---------------------------
+    # --- shrinking: to a single source, then lines, then characters; only steps that keep the failure CLASS are taken,
+    # so that a case can never drift into the (known) minimal form of a different deviation
+    def _classes(self, cands):
+        io = core.run_impl(self.AREA, cands)
+        mo = core.run_model(self.AREA, cands)
+        out = []
+        for c, i, m in zip(cands, io, mo):
+            why = self.predicate(c, i) or self.predicate2(c, i, m)
+            out.append(self.failure_class(c, i, why) if why else None)
+        return out
+
+    @staticmethod
+    def _core_class(cls):
+        # the reason text changes when the expected tree / layout group is dropped; the F30 marker must not
+        if cls is None:
+            return None
+        return "F30-shaped" if cls.startswith("F30-shaped") else "other"
+
     def shrink(self, case, fails):
         srcs, kind, exp = split_case(case)
+        want = self._core_class(self._classes([case])[0])
+        if want is None:
+            return case
+
+        def keep(cands):
+            return [self._core_class(c) == want for c in self._classes(cands)]
         singles = ["spec " + s for s in srcs]
         if len(srcs) > 1 or kind:
-            res = fails(singles)
+            res = keep(singles)
             hit = [c for c, r in zip(singles, res) if r]
             if not hit:
                 return case          # only reproducible with the expected tree / the layout group
@@ -511,14 +631,14 @@ class C02(Base):
         lines = src.split("\n")
         if len(lines) > 2:
             def fl(cands):
-                return fails(["spec " + hx("\n".join(c)) for c in cands])
+                return keep(["spec " + hx("\n".join(c)) for c in cands])
             src = "\n".join(core.ddmin(lines, fl))
         chars = list(src)
         if len(chars) < 2:
             return "spec " + hx(src)
 
         def f(cands):
-            return fails(["spec " + hx("".join(c)) for c in cands])
+            return keep(["spec " + hx("".join(c)) for c in cands])
         return "spec " + hx("".join(core.ddmin(chars, f)))
 
     def mutate(self, case, rng, n):
@@ -530,7 +650,9 @@ class C02(Base):
         return out
 
     def matches_known(self, k, case, impl_obs, why):
-        """a known finding names a regular expression over the (shrunk) source text and a fragment of the reason"""
+        """a known finding names a regular expression over the (shrunk) source text and a fragment of the reason;
+        F30 additionally requires the structural shape checked by `f30_shape` (needs the grammar's tree, recorded by
+        predicate2 when the case was evaluated)"""
         sig = k.get("signature")
         if not isinstance(sig, dict):
             return False
@@ -538,9 +660,20 @@ class C02(Base):
         if sig.get("why") and sig["why"] not in (why or ""):
             return False
         try:
-            return all(re.search(sig.get("source", "$^"), unhx(s).decode("utf-8", "replace"), re.S) for s in srcs)
+            if not all(re.search(sig.get("source", "$^"), unhx(s).decode("utf-8", "replace"), re.S) for s in srcs):
+                return False
         except re.error:
             return False
+        # the witness itself must still fail the same way (otherwise the finding is gone and nothing may hide behind it)
+        wit = k.get("witness")
+        if wit:
+            wcls = self._classes([wit])[0]
+            if wcls is None:
+                return False
+        if k.get("id") == "F30":
+            dev = self._dev.get(case)
+            return dev is not None and f30_shape(*dev) and wcls is not None and wcls.startswith("F30-shaped")
+        return True
 
 
 P = C02()
